@@ -87,6 +87,7 @@ class ResponseHandler(BaseProtocol, DataQueue[tuple[RawResponseMessage, StreamRe
             or self._payload_parser is not None
             or self._buffer
             or self._tail
+            or (self._parser is not None and self._parser.has_pending_data)
         )
 
     def force_close(self) -> None:
